@@ -166,3 +166,19 @@ Proof.
   simpl. repeat split; try reflexivity.
   constructor; [intros [H|[]]; discriminate|]. constructor; [intros []|constructor].
 Qed.
+
+(* ---- handle / project provenance and working directory (added with seeded changes C02-7, C02-8).  MODELLING STEP,
+   see CorrC02.v: a project is its canonical root.  The model's run of a harness program does not depend on how a
+   Project object was obtained, nor on any chdir between the operations; the names of the directories are not part of
+   the model's language at all (the harness maps the root A to a directory whose name - and whose parent's name - is drawn
+   from a set with glob / shell metacharacters, spaces and non-ASCII characters).  That the implementation behaves the
+   same is what the correspondence checks on every generated provenance. *)
+Theorem C02_provenance_irrelevant : forall frepr a b r pv pv',
+  run_items frepr (a ++ ISession r pv :: b) = run_items frepr (a ++ ISession r pv' :: b).
+Proof. exact provenance_irrelevant. Qed.
+Print Assumptions C02_provenance_irrelevant.
+
+Theorem C02_cwd_irrelevant : forall frepr a b d,
+  run_items frepr (a ++ IChdir d :: b) = run_items frepr (a ++ b).
+Proof. exact cwd_irrelevant. Qed.
+Print Assumptions C02_cwd_irrelevant.
